@@ -30,6 +30,7 @@ type Node struct {
 	Args     []string // extra flags
 	Env      []string // extra env (VERIF_CRASH=..., VERIF_SQLITE_CLOCK_OFFSET_S=...)
 	ClockOff int64    // seconds; non-zero => LD_PRELOAD shim
+	VLimitKB int64    // non-zero => run under `ulimit -v <KB>` (virtual memory cap)
 	LogPath  string
 
 	mu   sync.Mutex
@@ -65,6 +66,10 @@ func (n *Node) Start(join ...string) error {
 	args = append(args, n.Args...)
 	args = append(args, n.Dir)
 	cmd := exec.Command(vf.Bin("rqlited"), args...)
+	if n.VLimitKB > 0 {
+		sh := fmt.Sprintf("ulimit -v %d; exec \"$0\" \"$@\"", n.VLimitKB)
+		cmd = exec.Command("/bin/bash", append([]string{"-c", sh, vf.Bin("rqlited")}, args...)...)
+	}
 	env := append(os.Environ(), n.Env...)
 	if n.ClockOff != 0 {
 		env = append(env, "LD_PRELOAD="+vf.Bin("clockshim.so"), fmt.Sprintf("VERIF_SQLITE_CLOCK_OFFSET_S=%d", n.ClockOff))
@@ -258,6 +263,16 @@ func (r Resp) OK() bool {
 		}
 	}
 	return true
+}
+
+// Pid returns the process id (0 if not started).
+func (n *Node) Pid() int {
+	n.mu.Lock()
+	defer n.mu.Unlock()
+	if n.cmd == nil || n.cmd.Process == nil {
+		return 0
+	}
+	return n.cmd.Process.Pid
 }
 
 // DBPath returns the node's SQLite file.
